@@ -50,3 +50,16 @@ M("C09-module-level-cache-names", "C09", "R9.2", ("expr.py", "def make_apply(con
 M("C09-order-by-id", "C09", "R9.3", ("rewrite.py", "        if x.key > y.key:\n            return expr.context.logical_and(y, x)", "        if id(x) > id(y):\n            return expr.context.logical_and(y, x)"))
 N("C09-neutral-sorted-set", "C09", ("context.py", "        if \"using\" not in self.parameters:\n            self.parameters[\"using\"] = set()\n", "        if \"using\" not in self.parameters:\n            self.parameters[\"using\"] = set()\n        self._using_names = sorted(self.parameters[\"using\"])\n"))
 N("C09-neutral-membership", "C09", ("targets/base.py", "        if expr.ref in self.defined_refs:\n            assert self.need_ref.get(expr.ref), expr.ref\n            return expr.ref", "        if any(expr.ref == d for d in self.defined_refs):\n            assert self.need_ref.get(expr.ref), expr.ref\n            return expr.ref"))
+
+# ----------------------------------------------------------------------------- C16
+M("C16-d0-drops-leading", "C16", "R16.1", ("polynomial.py", "        for i in range(1, N + 1):\n            s += coeffs[i] * fast_exponent_by_squaring(x, i)", "        for i in range(1, N):\n            s += coeffs[i] * fast_exponent_by_squaring(x, i)"))
+M("C16-horner-reverse", "C16", "R16.1", ("floating_point_algorithms.py", "    N = len(coeffs) - 1\n    if reverse:\n        s = ctx.constant(coeffs[0], x)\n        indices = range(1, N + 1)\n    else:\n        s = ctx.constant(coeffs[N], x)\n        indices = reversed(range(N))\n    for i in indices:\n        s = s * x + coeffs[i]", "    N = len(coeffs) - 1\n    if reverse:\n        s = ctx.constant(coeffs[0], x)\n        indices = range(N)\n    else:\n        s = ctx.constant(coeffs[N], x)\n        indices = reversed(range(N))\n    for i in indices:\n        s = s * x + coeffs[i]"))
+M("C16-split-low-short", "C16", "R16.1", ("floating_point_algorithms.py", "    b = fast_polynomial(ctx, x, coeffs[:d], reverse=reverse, scheme=scheme, _N=_N)", "    b = fast_polynomial(ctx, x, coeffs[: d - 1], reverse=reverse, scheme=scheme, _N=_N)"))
+M("C16-rpoly-skips", "C16", "R16.1", ("polynomial.py", "    for rc in reversed(rcoeffs[1:]):", "    for rc in reversed(rcoeffs[2:]):"))
+M("C16-laurent-slice", "C16", "R16.1", ("floating_point_algorithms.py", "            P = C[-m:]", "            P = C[-m + 1 :]"))
+M("C16-sibling-disagree", "C16", "R16.2", ("floating_point_algorithms.py", "    if N == 1:\n        return ctx.constant(coeffs[0], x) + ctx.constant(coeffs[1], x) * x\n\n    d = scheme(N, _N)", "    d = scheme(N, _N)"))
+M("C16-exp-even", "C16", "R16.3", ("floating_point_algorithms.py", "    if n % 2 == 0:\n        return r * r\n    return r * r * x", "    if n % 2 == 0:\n        return r * r * x\n    return r * r * x"))
+M("C16-exp-n2", "C16", "R16.3", ("polynomial.py", "    if n == 2:\n        return x * x\n", "    if n == 2:\n        return x * x * x\n"))
+M("C16-recombine-power", "C16", "R16.3", ("polynomial.py", "    xd = fast_exponent_by_squaring(x, d)", "    xd = fast_exponent_by_squaring(x, d - 1)"))
+N("C16-neutral-len", "C16", ("polynomial.py", "        for i in range(1, N + 1):\n            s += coeffs[i] * fast_exponent_by_squaring(x, i)", "        for i in range(1, len(coeffs)):\n            s += coeffs[i] * fast_exponent_by_squaring(x, i)"), ("floating_point_algorithms.py", "        for i in range(1, N + 1):\n            s += coeffs[i] * fast_exponent_by_squaring(ctx, x, i)", "        for i in range(1, len(coeffs)):\n            s += coeffs[i] * fast_exponent_by_squaring(ctx, x, i)"))
+N("C16-neutral-order", "C16", ("polynomial.py", "    a = fast_polynomial(x, coeffs[d:], reverse=reverse, scheme=scheme, _N=_N)\n    b = fast_polynomial(x, coeffs[:d], reverse=reverse, scheme=scheme, _N=_N)", "    b = fast_polynomial(x, coeffs[:d], reverse=reverse, scheme=scheme, _N=_N)\n    a = fast_polynomial(x, coeffs[d:], reverse=reverse, scheme=scheme, _N=_N)"))
